@@ -10,6 +10,7 @@ use serde_json::{json, Value};
 
 mod corecmd;
 mod lexcmd;
+mod typescmd;
 mod util;
 
 pub static LAST_PANIC: Mutex<Option<String>> = Mutex::new(None);
@@ -84,6 +85,8 @@ fn main() {
     match cmd {
         "lex" => write_records(&par_map(read_records(), lexcmd::lex_record)),
         "core-print" => write_records(&par_map(read_records(), corecmd::print_record)),
+        "types-ctx" => write_records(&par_map(read_records(), typescmd::ctx_record)),
+        "types-table" => write_records(&par_map(read_records(), typescmd::table_record)),
         "version" => println!("{}", json!({"harness": 1})),
         _ => {
             eprintln!("usage: vh <lex|...>  (ndjson on stdin)");
